@@ -150,7 +150,8 @@ def drive(tier):
 def run(tier):
     rep = Report("C08", tier)
     rep.add_mc("MC_Script", vlib.run_mc("MC_Script", cfg="MC_Script_quick" if tier == "quick" else "MC_Script"))
-    recs = drive(tier)
+    recs, nsecond, ndiff = vlib.second_pass(drive, tier)
+    rep.cov["second_pass_calls"], rep.cov["second_pass_differing"] = nsecond, ndiff
     mm = vlib.validate("Trace_Script", recs)
     rep.apply_mismatches(recs, mm)
     rep.cov["evaluations"] = len(recs)
